@@ -157,6 +157,11 @@ PARAM_COMBOS = [
     ("image", "raw", None, "compressed_segmentation", "uint32", False, 2),
     ("segmentation", None, None, None, "uint64", False, 1),
     (None, "compressed_segmentation", None, "raw", "uint8", True, 1),
+    # compressed_segmentation for narrow integer types whose full-resolution description
+    # already carries a block size (hand-written / copied descriptions)
+    (None, "compressed_segmentation", None, None, "uint8", True, 1),
+    ("segmentation", "compressed_segmentation", None, None, "uint16", True, 1),
+    (None, None, None, "compressed_segmentation", "uint16", True, 1),
     (None, None, None, "jpeg", "uint8", False, 1),
     (None, None, None, "jpeg", "uint8", False, 3),
     (None, None, "image", None, "float32", False, 1),
